@@ -446,10 +446,11 @@ type pair struct {
 	ipSent  bool
 	dup     bool
 
-	wire  bool    // parsed from wire bytes (raw header block keeps the sent spelling) instead of direct drive
-	extra []fwd   // other request headers, sent with both twins
-	donor *config // the app is built from another app's Config() whose trust settings were then replaced by cfg
-	app   *fiber.App
+	wire   bool              // parsed from wire bytes (raw header block keeps the sent spelling) instead of direct drive
+	extra  []fwd             // other request headers, sent with both twins
+	likeOf map[string]string // lower-cased look-alike header name in hdrs -> the documented name it resembles
+	donor  *config           // the app is built from another app's Config() whose trust settings were then replaced by cfg
+	app    *fiber.App
 }
 
 type tlsScript struct{ *drive.ScriptConn }
@@ -518,7 +519,9 @@ func observe(p *pair) (*drive.Direct, *vec) {
 		v.Scheme = strings.Clone(c.Scheme())
 		v.BaseURL = strings.Clone(c.BaseURL())
 		v.Secure = c.Secure()
-		v.Subdomains = strings.Join(c.Subdomains(), ",")
+		// Join returns a lone element as it is, and that may point into the request buffer, which the
+		// server reuses for the next wire request: copy, as for every other accessor
+		v.Subdomains = strings.Clone(strings.Join(c.Subdomains(), ","))
 		return nil
 	})
 	return drive.NewDirect(app), v
@@ -715,6 +718,48 @@ func genPair(r *gen.Rand) *pair {
 			add("X-Forwarded-For", genIPElem(r).text)
 		}
 	}
+	if r.Chance(1, 3) {
+		// look-alike field names: a documented name with something appended, cut short, or as the tail
+		// of another name. Only the documented names count, so these must be ignored.
+		p.likeOf = map[string]string{}
+		for n := 1 + r.PickW(6, 3, 1); n > 0; n-- {
+			base := gen.Pick(r, []string{hProto, hProto, hProtocol, hSsl, hURL, hHost, "X-Forwarded-For"})
+			if p.cfg.proxyHeader != "" && r.Chance(1, 4) {
+				base = p.cfg.proxyHeader
+			}
+			var name string
+			switch r.PickW(50, 20, 30) {
+			case 0:
+				name = base + gen.Pick(r, []string{"-Version", "s", "x", "-Foo", "-Old", "name", "-Original", "col", "2"})
+			case 1:
+				name = base[:len(base)-1-r.Intn(2)]
+			default:
+				name = gen.Pick(r, []string{"Original-", "X", "My-", "Not-", "Real-"}) + base
+			}
+			known := false
+			for _, k := range []string{hProto, hProtocol, hSsl, hURL, hHost, "X-Forwarded-For", p.cfg.proxyHeader} {
+				if strings.EqualFold(k, name) {
+					known = true
+				}
+			}
+			if known || strings.HasSuffix(name, "-") {
+				continue
+			}
+			var val string
+			switch {
+			case strings.EqualFold(base, hHost):
+				val = gen.Pick(r, []string{"lookalike.example", "lookalike.example:444"})
+			case strings.EqualFold(base, hSsl):
+				val = "on"
+			case strings.EqualFold(base, "X-Forwarded-For") || strings.EqualFold(base, p.cfg.proxyHeader):
+				val = gen.Pick(r, []string{"6.6.6.6", "2001:db8::666", "6.6.6.6, 7.7.7.7"})
+			default:
+				val = gen.Pick(r, []string{"https", "https", "http", "wss", "https, http"})
+			}
+			p.likeOf[strings.ToLower(name)] = base
+			add(name, val)
+		}
+	}
 	if r.Chance(1, 12) {
 		// a second instance of one header: which one counts is not stated
 		h := p.hdrs[r.Intn(len(p.hdrs))]
@@ -736,6 +781,17 @@ func genPair(r *gen.Rand) *pair {
 		}
 	}
 	return p
+}
+
+// documented returns twin A's headers without the look-alike ones.
+func (p *pair) documented() []fwd {
+	var out []fwd
+	for _, h := range p.hdrs {
+		if _, ok := p.likeOf[strings.ToLower(h.name)]; !ok {
+			out = append(out, h)
+		}
+	}
+	return out
 }
 
 func (p *pair) get(name string) (string, int) {
@@ -766,7 +822,7 @@ func hostOnly(h string) (string, bool) {
 
 func judge(e *ev.Env, c *ev.Case, p *pair) {
 	d, v := observe(p)
-	var A, B vec
+	var A, B, A0 vec
 	input := p.m()
 	// History: a request from a peer of the *other* trust class served first by the same app
 	// (and, sequentially on one goroutine, by the same pooled context) must not leak its trust
@@ -792,6 +848,9 @@ func judge(e *ev.Env, c *ev.Case, p *pair) {
 		}
 		A = p.do(d, v, p.hdrs)
 		B = p.do(d, v, nil)
+		if len(p.likeOf) > 0 {
+			A0 = p.do(d, v, p.documented())
+		}
 	}) {
 		return
 	}
@@ -806,6 +865,32 @@ func judge(e *ev.Env, c *ev.Case, p *pair) {
 		e.Stat("pairs_config_from_other_app", 1)
 	}
 	e.Eval(2)
+	if len(p.likeOf) > 0 && (!p.wire || A0.ran) {
+		// only the documented field names count: the same request without the look-alike headers
+		// must give the same vector (trusted or not)
+		e.Stat("pairs_with_look_alike_headers", 1)
+		if df := diff(&A, &A0); len(df) > 0 {
+			like := "several"
+			for _, h := range p.hdrs {
+				base, ok := p.likeOf[strings.ToLower(h.name)]
+				if !ok {
+					continue
+				}
+				S := p.do(d, v, append(append([]fwd(nil), p.documented()...), h))
+				if d1 := diff(&S, &A0); len(d1) > 0 && d1[0] == df[0] {
+					like = base
+					if strings.EqualFold(base, p.cfg.proxyHeader) {
+						like = "ProxyHeader"
+					}
+					break
+				}
+			}
+			e.Violation(c, "C10|look-alike-header-not-ignored|Ctx."+df[0]+"|resembles="+like,
+				"a header whose name only resembles a documented forwarding header changed "+strings.Join(df, ","),
+				map[string]any{"input": input, "with_look_alikes": A.m(), "without_look_alikes": A0.m(), "without_headers": B.m(), "differs": df})
+		}
+		A = A0 // the remaining clauses judge the documented headers alone
+	}
 	ref := reference(p.cfg, p.peer)
 	form := "v6"
 	if len(p.remote.IP) == 4 {
